@@ -42,7 +42,7 @@ PROPS = {
                    "for every haystack and needle, with termination; the string-level wrappers (find, rfind, contains, rcontains, find_skip/keep, rfind_skip/keep, split_once, rsplit_once) proved over an abstract pattern (L5), including the from_utf8_unchecked precondition via the proved match-cut lemma. Kani (bounded) supplies counterexamples and covers the four concrete pattern kinds: forward/reverse search, contains, skip/keep, split_once against a first/last-occurrence reference, all byte values, hay <= 5, needle <= 3; "
                    "four pattern kinds",
         technique="Kani bounded harnesses against first/last-occurrence reference (tied to str::find/rfind); Verus loop invariants when present",
-        assumptions=["naive first/last-occurrence reference is str::find/rfind (SPEC harness c04_spec_vs_std, thorough tier)",
+        assumptions=["naive first/last-occurrence reference is str::find/rfind (SPEC harnesses c04_spec_find_vs_std and c04_spec_rfind_vs_std, thorough tier)",
                      "reverse search with an empty pattern is not specified by the property and not checked"],
     ),
     "C05": _p(
